@@ -19,6 +19,56 @@ Proof.
   - split; discriminate.
 Qed.
 
+(* ------------------------------------------- expansion of configured names *)
+Lemma index_sub_absent : forall s c, ~ In c s -> index_sub s [c] = None.
+Proof.
+  induction s as [|x s IH]; intros c H; simpl; [reflexivity|].
+  destruct (N.eqb_spec x c) as [->|_]; [exfalso; apply H; left; reflexivity|]. simpl.
+  rewrite IH by (intro; apply H; right; assumption). reflexivity.
+Qed.
+
+Lemma index_sub_first : forall p c rest, ~ In c p -> index_sub (p ++ c :: rest) [c] = Some (length p).
+Proof.
+  induction p as [|x p IH]; intros c rest H; simpl.
+  - rewrite N.eqb_refl. reflexivity.
+  - destruct (N.eqb_spec x c) as [->|_]; [exfalso; apply H; left; reflexivity|]. simpl.
+    rewrite IH by (intro; apply H; right; assumption). reflexivity.
+Qed.
+
+Lemma cut_absent s c : ~ In c s -> cut s [c] = (s, [], false).
+Proof. intro H. unfold cut. rewrite (index_sub_absent _ _ H). reflexivity. Qed.
+
+Lemma cut_first p c rest : ~ In c p -> cut (p ++ c :: rest) [c] = (p, rest, true).
+Proof.
+  intro H. unfold cut. rewrite (index_sub_first _ _ _ H).
+  rewrite firstn_app, firstn_all, Nat.sub_diag. simpl. rewrite app_nil_r.
+  replace (length p + 1)%nat with (length p + 1 + 0)%nat by lia.
+  rewrite <- (app_nil_l rest) at 1.
+  change (p ++ c :: [] ++ rest) with (p ++ [c] ++ rest). rewrite app_assoc.
+  rewrite skipn_app. rewrite app_length. simpl.
+  rewrite skipn_all2 by (rewrite app_length; simpl; lia).
+  replace (length p + 1 + 0 - (length p + 1))%nat with 0%nat by lia. reflexivity.
+Qed.
+
+Lemma trim_suffix_last x c : trim_suffix (x ++ [c]) [c] = x.
+Proof.
+  unfold trim_suffix, has_suffix. rewrite rev_app_distr. simpl. rewrite N.eqb_refl. simpl.
+  rewrite app_length. simpl. replace (length x + 1 - 1)%nat with (length x) by lia.
+  rewrite firstn_app, firstn_all, Nat.sub_diag. simpl. apply app_nil_r.
+Qed.
+
+(* a name without a bucket list stands for itself *)
+Theorem expand_plain c : ~ In 123 c -> expand c = [c].
+Proof. intro H. unfold expand. rewrite (cut_absent _ _ H). reflexivity. Qed.
+
+(* prefix{b1,...,bn} stands for prefix++b1, ..., prefix++bn - also for n = 1 *)
+Theorem expand_buckets p bs : ~ In 123 p -> bs <> [] -> (forall b, In b bs -> ~ In 44 b) ->
+  expand (p ++ [123] ++ join bs [44] ++ [125]) = map (fun b => p ++ b) bs.
+Proof.
+  intros Hp Hne Hb. unfold expand. simpl app. rewrite (cut_first _ _ _ Hp).
+  rewrite trim_suffix_last. rewrite (split_join bs 44 Hne Hb). reflexivity.
+Qed.
+
 (* approval is membership of the WHOLE reported name in the program's own table *)
 Lemma mem_in x l : mem x l = true <-> In x l.
 Proof.
